@@ -40,7 +40,7 @@ func (p *pp) startUnsafe() restorer {
 		p.buf.SetMode(b.UnsafeEscaped)
 	}
 	if verifOn {
-		verifMode(p, "U", int(prevMode), int(p.override))
+		verifMode(p, "U")
 	}
 	return restorer{p, prevMode, p.override}
 }
@@ -51,7 +51,7 @@ func (p *pp) startPreRedactable() restorer {
 		p.buf.SetMode(b.PreRedactable)
 	}
 	if verifOn {
-		verifMode(p, "R", int(prevMode), int(p.override))
+		verifMode(p, "R")
 	}
 	return restorer{p, prevMode, p.override}
 }
@@ -64,7 +64,7 @@ func (p *pp) startSafeOverride() restorer {
 		p.override = overrideSafe
 	}
 	if verifOn {
-		verifMode(p, "SO", int(prevMode), int(prevOverride))
+		verifMode(p, "SO")
 	}
 	return restorer{p, prevMode, prevOverride}
 }
@@ -77,7 +77,7 @@ func (p *pp) startUnsafeOverride() restorer {
 		p.override = overrideUnsafe
 	}
 	if verifOn {
-		verifMode(p, "UO", int(prevMode), int(prevOverride))
+		verifMode(p, "UO")
 	}
 	return restorer{p, prevMode, prevOverride}
 }
@@ -92,7 +92,7 @@ func (r restorer) restore() {
 	r.p.buf.SetMode(r.prevMode)
 	r.p.override = r.prevOverride
 	if verifOn {
-		verifMode(r.p, "X", int(r.prevMode), int(r.prevOverride))
+		verifMode(r.p, "X")
 	}
 }
 
